@@ -4,8 +4,11 @@
 // The approximating functions (sin, exp, ...) are only held to "constant evaluation succeeds
 // for every in-domain argument" (their values belong to C16's tolerance).
 //
-// MC_PART: 1 float, 2 double, 3 long double (exact set);  4 float, 5 double, 6 long double
-// (approximating set, success of constant evaluation only).
+// MC_PART: 1 float, 2 double, 3 long double (exact set; round 2: plus the suffixed entry points
+// floorf / floorl ... of the unary functions and, in part 2, the integral overloads);  4 float,
+// 5 double, 6 long double (approximating set, success of constant evaluation only; not registered);
+// 7 float, 8 long double: the suffixed entry points of the binary functions and fmaf / fmal (thorough);
+// 9 (round 2) approximating set at the boundary arguments of the documented domain: success probes.
 #include "mc.hpp"
 
 #include <etl/cmath.hpp>
@@ -250,6 +253,112 @@ struct f_fma {
     }
 };
 
+// ---- every other entry point of the exact set (round 2) ------------------------------
+// floor(float) / floorf(float), floor(long double) / floorl(long double) ... are separate functions
+// in tetl, some routed through the is_constant_evaluated() dispatcher and some straight to gcem; the
+// integral overloads convert to double first.  Each one is its own kernel.
+C13_F1(floorf, etl::floorf(x), true);
+C13_F1(ceilf, etl::ceilf(x), true);
+C13_F1(truncf, etl::truncf(x), true);
+C13_F1(roundf, etl::roundf(x), true);
+C13_F1(rintf, etl::rintf(x), true);
+C13_F1(lrintf, etl::lrintf(x), fits_ll(x));
+C13_F1(llrintf, etl::llrintf(x), fits_ll(x));
+C13_F1(floorl, etl::floorl(x), true);
+C13_F1(ceill, etl::ceill(x), true);
+C13_F1(truncl, etl::truncl(x), true);
+C13_F1(roundl, etl::roundl(x), true);
+C13_F1(rintl, etl::rintl(x), true);
+C13_F1(lrintl, etl::lrintl(x), fits_ll(x));
+C13_F1(llrintl, etl::llrintl(x), fits_ll(x));
+C13_F2(copysignf, etl::copysignf(x, y), true, cc2(x, y));
+C13_F2(fminf, etl::fminf(x, y), true, cc2(x, y));
+C13_F2(fmaxf, etl::fmaxf(x, y), true, cc2(x, y));
+C13_F2(fdimf, etl::fdimf(x, y), diff_fits(x, y), cc2(x, y));
+C13_F2(fmodf, etl::fmodf(x, y), (any_nan(x, y) || (!is_inf(x) && y != T(0))), C13_QCLS);
+C13_F2(remainderf, etl::remainderf(x, y), (any_nan(x, y) || (!is_inf(x) && y != T(0))), C13_QCLS);
+C13_F2(nextafterf, etl::nextafterf(x, y), true, cc2(x, y));
+C13_F2(copysignl, etl::copysignl(x, y), true, cc2(x, y));
+C13_F2(fminl, etl::fminl(x, y), true, cc2(x, y));
+C13_F2(fmaxl, etl::fmaxl(x, y), true, cc2(x, y));
+C13_F2(fdiml, etl::fdiml(x, y), diff_fits(x, y), cc2(x, y));
+C13_F2(fmodl, etl::fmodl(x, y), (any_nan(x, y) || (!is_inf(x) && y != T(0))), C13_QCLS);
+C13_F2(remainderl, etl::remainderl(x, y), (any_nan(x, y) || (!is_inf(x) && y != T(0))), C13_QCLS);
+struct f_fmaf : f_fma {
+    static constexpr char const* name = "fmaf";
+    static constexpr auto apply(float x, float y, float z) { return etl::fmaf(x, y, z); }
+};
+struct f_fmal : f_fma {
+    static constexpr char const* name = "fmal";
+    static constexpr auto apply(long double x, long double y, long double z) { return etl::fmal(x, y, z); }
+};
+
+// integral overloads: all values of the 8-bit types, a boundary lattice for the wider ones
+template <typename I>
+constexpr auto int_values()
+{
+    if constexpr (sizeof(I) == 1) {
+        std::array<I, 256> a{};
+        for (int i = 0; i < 256; ++i) { a[std::size_t(i)] = static_cast<I>(static_cast<unsigned char>(i)); }
+        return a;
+    } else {
+        using U = std::make_unsigned_t<I>;
+        std::array<I, 64> a{};
+        std::size_t n = 0;
+        for (U x : {U(0), U(1), U(2), U(3), U(7), U(10), U(255), U(256), U(65535)}) {
+            a[n++] = static_cast<I>(x);
+            a[n++] = static_cast<I>(U(0) - x); // negatives (signed) / top of the range (unsigned)
+        }
+        for (int k : {15, 16, 24, 31, 32, 53, 62, 63}) { // 2^24, 2^53: first integers float / double cannot hold
+            if (k >= int(sizeof(I) * 8)) { continue; }
+            U const b = static_cast<U>(U(1) << k);
+            a[n++]    = static_cast<I>(b);
+            a[n++]    = static_cast<I>(b - 1);
+            a[n++]    = static_cast<I>(b + 1);
+            a[n++]    = static_cast<I>(~b);
+        }
+        // the tail stays 0 (a duplicate of entry 0: harmless, excluded from distinct_nontrivial by content hashing)
+        return a;
+    }
+}
+template <typename I>
+char const* int_name()
+{
+    if constexpr (std::is_same_v<I, signed char>) { return "signed char"; }
+    if constexpr (std::is_same_v<I, unsigned char>) { return "unsigned char"; }
+    if constexpr (std::is_same_v<I, short>) { return "short"; }
+    if constexpr (std::is_same_v<I, int>) { return "int"; }
+    if constexpr (std::is_same_v<I, unsigned>) { return "unsigned"; }
+    if constexpr (std::is_same_v<I, long>) { return "long"; }
+    if constexpr (std::is_same_v<I, unsigned long long>) { return "unsigned long long"; }
+    return "?";
+}
+template <typename I, typename F>
+struct IntUnary {
+    using In = I;
+    using R  = decltype(F::apply(I{}));
+    static constexpr auto vals     = int_values<I>();
+    static constexpr std::size_t N = vals.size();
+    static std::string subject() { return std::string(F::name) + "(" + int_name<I>() + ")"; }
+    static constexpr In in(std::size_t i) { return vals[i]; }
+    static constexpr bool valid(In const& x) { return F::valid(x); }
+    static constexpr R call(In const& x) { return F::apply(x); }
+    static std::string cls(In const& x)
+    {
+        return x == 0 ? "zero" : (std::is_signed_v<I> && x < 0) ? "negative" : x == std::numeric_limits<I>::max() ? "max" : "positive";
+    }
+    static std::string show(In const& x) { return "x=" + show_val(x); }
+    static bool nontrivial(In const& x) { return x != 0; }
+};
+template <typename I>
+constexpr bool int_fits_ll(I x) // double(x) rounds to a value below 2^63
+{
+    return static_cast<double>(x) < 9223372036854775808.0;
+}
+// the float-only functions reuse the C13_F1 objects: the call resolves to the integral overload
+C13_F1(lrint_i, etl::lrint(x), int_fits_ll(x));
+C13_F1(llrint_i, etl::llrint(x), int_fits_ll(x));
+
 // ---- approximating set: only "constant evaluation succeeds" ----------------------------
 #define C13_S1(NAME, VALID) C13_F1(NAME, ((void)etl::NAME(x), true), VALID)
 
@@ -356,7 +465,193 @@ void approx_d(mc::Reporter& r)
     run_all<Binary<T, f_atan2>, Binary<T, f_hypot>, Binary<T, f_pow>, Binary<T, f_beta>>(r);
 }
 
-#if MC_PART == 1 || MC_PART == 4
+// ---- round 2: approximating set at the boundary arguments of the documented domain -----------
+// Success probes only (the value belongs to C16).  Domain = no domain error, no pole error, no range
+// error in the sense of the C standard (7.12.1): arguments whose mathematical result overflows, or
+// is a non-zero value below the smallest normal number, are left out.
+template <typename T>
+constexpr auto make_P_raw()
+{
+    Bag<T, 128> b;
+    add_specials<T>(b); // +-0, +-1, +-inf, +-NaN, +-denorm_min, +-min, +-max
+    b.pm(lim<T>::epsilon());
+    b.pm(T(0.5));
+    b.pm(down(T(1)));
+    b.pm(up(T(1)));
+    b.pm(T(1.5));
+    b.pm(T(2));
+    b.pm(T(2.718281828459045235360287471352662498L));
+    b.pm(T(3));
+    b.pm(T(10));
+    b.pm(T(20));
+    b.pm(T(100));
+    b.pm(T(1.57079632679489661923132169163975144L));
+    b.pm(T(3.14159265358979323846264338327950288L));
+    b.pm(pow2<T>(lim<T>::digits));
+    b.pm(pow2<T>(62));
+    b.pm(pow2<T>(64));
+    b.pm(pow2<T>(100));
+    b.pm(lim<T>::max() / T(2));
+    b.pm(lim<T>::min() - lim<T>::denorm_min()); // largest subnormal
+    b.finish();
+    return b;
+}
+template <typename T>
+inline constexpr auto P = [] {
+    constexpr auto raw = make_P_raw<T>();
+    std::array<T, raw.n> out{};
+    for (std::size_t i = 0; i < raw.n; ++i) { out[i] = raw.v[i]; }
+    return out;
+}();
+template <typename T>
+inline constexpr auto P2 = [] {
+    Bag<T, 64> b;
+    add_specials<T>(b);
+    b.pm(T(0.5));
+    b.pm(T(2));
+    b.pm(T(3));
+    b.pm(T(10));
+    b.pm(up(T(1)));
+    b.pm(lim<T>::max() / T(4));
+    b.finish();
+    std::array<T, 26> out{};
+    for (std::size_t i = 0; i < 26; ++i) { out[i] = b.v[i]; }
+    return out;
+}();
+template <typename T>
+constexpr bool subnormal(T x)
+{
+    return x == x && x != T(0) && mag_of(x) < lim<T>::min();
+}
+template <typename T>
+constexpr T ln_min() // a little above log(min())
+{
+    return T(lim<T>::min_exponent + 1) * T(0.6931471805599453L);
+}
+// f(x) ~ x near 0: a subnormal argument gives a subnormal result (underflow range error)
+#define C13_TINY_OK (!subnormal(x))
+C13_F1(p_sin, ((void)etl::sin(x), true), (x != x || (finite(x) && C13_TINY_OK)));
+C13_F1(p_cos, ((void)etl::cos(x), true), (x != x || finite(x)));
+C13_F1(p_tan, ((void)etl::tan(x), true), (x != x || (finite(x) && C13_TINY_OK)));
+C13_F1(p_asin, ((void)etl::asin(x), true), (!(mag_of(x) > T(1)) && C13_TINY_OK));
+C13_F1(p_acos, ((void)etl::acos(x), true), (!(mag_of(x) > T(1))));
+C13_F1(p_atan, ((void)etl::atan(x), true), C13_TINY_OK);
+C13_F1(p_sinh, ((void)etl::sinh(x), true), (!(finite(x) && mag_of(x) > ln_max<T>()) && C13_TINY_OK));
+C13_F1(p_cosh, ((void)etl::cosh(x), true), (!(finite(x) && mag_of(x) > ln_max<T>())));
+C13_F1(p_tanh, ((void)etl::tanh(x), true), C13_TINY_OK);
+C13_F1(p_asinh, ((void)etl::asinh(x), true), C13_TINY_OK);
+C13_F1(p_acosh, ((void)etl::acosh(x), true), (!(x < T(1))));
+C13_F1(p_atanh, ((void)etl::atanh(x), true), (!(mag_of(x) >= T(1)) && C13_TINY_OK));
+C13_F1(p_exp, ((void)etl::exp(x), true), (!(finite(x) && (x > ln_max<T>() || x < ln_min<T>()))));
+C13_F1(p_log, ((void)etl::log(x), true), (!(x <= T(0))));
+C13_F1(p_log2, ((void)etl::log2(x), true), (!(x <= T(0))));
+C13_F1(p_log10, ((void)etl::log10(x), true), (!(x <= T(0))));
+C13_F1(p_log1p, ((void)etl::log1p(x), true), (!(x <= T(-1)) && C13_TINY_OK));
+C13_F1(p_sqrt, ((void)etl::sqrt(x), true), (!(x < T(0))));
+C13_F1(p_erf, ((void)etl::erf(x), true), C13_TINY_OK);
+C13_F1(p_tgamma, ((void)etl::tgamma(x), true), (x != x || (x >= lim<T>::min() && (x <= T(30) || is_inf(x)))));
+C13_F1(p_lgamma, ((void)etl::lgamma(x), true), (x != x || (x > T(0) && (x <= pow2<T>(100) || is_inf(x)))));
+/// magnitude bucket of a probe argument (signs merged: the failures found are symmetric)
+template <typename T>
+std::string probe_class(T x)
+{
+    if (x != x) { return "nan"; }
+    T const m = mag_of(x);
+    if (m == lim<T>::infinity()) { return "inf"; }
+    if (m == T(0)) { return "zero"; }
+    if (m < lim<T>::min()) { return "subnormal"; }
+    if (m >= pow2<T>(62)) { return "huge"; }       // 2^62 and above (up to max())
+    if (m >= T(64)) { return "large"; }            // [64, 2^62)
+    if (m < pow2<T>(-20)) { return "tiny"; }
+    return "moderate";
+}
+template <typename T, typename F>
+struct UnaryP : Unary<T, F> {
+    static std::string cls(T const& x) { return probe_class(x); }
+    static constexpr std::size_t N = P<T>.size();
+    static constexpr T in(std::size_t i) { return P<T>[i]; }
+    static std::string subject() { return std::string(F::name).substr(2) + "(" + tname<T>() + ") constant evaluation succeeds"; }
+};
+template <typename T, typename F>
+struct BinaryP : Binary<T, F> {
+    using In = std::array<T, 2>;
+    static constexpr std::size_t M = P2<T>.size();
+    static constexpr std::size_t N = M * M;
+    static constexpr In in(std::size_t i) { return In{P2<T>[i / M], P2<T>[i % M]}; }
+    static std::string cls(In const& a) { return probe_class(a[0]) + "," + probe_class(a[1]); }
+    static std::string subject() { return std::string(F::name).substr(2) + "(" + tname<T>() + "," + tname<T>() + ") constant evaluation succeeds"; }
+};
+template <typename T>
+constexpr bool half_max(T x)
+{
+    return !finite(x) || mag_of(x) <= lim<T>::max() / T(2);
+}
+C13_F2(p_atan2, ((void)etl::atan2(x, y), true), (!subnormal(x) && !subnormal(y)), cc2(x, y));
+C13_F2(p_hypot, ((void)etl::hypot(x, y), true), (half_max(x) && half_max(y) && !subnormal(x) && !subnormal(y)), cc2(x, y));
+C13_F2(p_pow, ((void)etl::pow(x, y), true), (pow_in_domain(x, y) && !subnormal(x) && !subnormal(y)),
+    cc2(x, y) + ((finite(x) && finite(y) && mag_of(y) > T(64)) ? ":large_exponent" : ""));
+C13_F2(p_beta, ((void)etl::beta(x, y), true), (x >= pow2<T>(-20) && y >= pow2<T>(-20) && x <= T(20) && y <= T(20)), cc2(x, y));
+template <typename T>
+void boundary_probes_unary(mc::Reporter& r)
+{
+    run_all<UnaryP<T, f_p_sin>, UnaryP<T, f_p_cos>, UnaryP<T, f_p_tan>, UnaryP<T, f_p_asin>, UnaryP<T, f_p_acos>, UnaryP<T, f_p_atan>, UnaryP<T, f_p_sinh>,
+        UnaryP<T, f_p_cosh>, UnaryP<T, f_p_tanh>, UnaryP<T, f_p_asinh>, UnaryP<T, f_p_acosh>, UnaryP<T, f_p_atanh>>(r);
+    run_all<UnaryP<T, f_p_exp>, UnaryP<T, f_p_log>, UnaryP<T, f_p_log2>, UnaryP<T, f_p_log10>, UnaryP<T, f_p_log1p>, UnaryP<T, f_p_sqrt>, UnaryP<T, f_p_erf>,
+        UnaryP<T, f_p_tgamma>, UnaryP<T, f_p_lgamma>>(r);
+}
+template <typename T>
+void boundary_probes_binary(mc::Reporter& r)
+{
+    run_all<BinaryP<T, f_p_atan2>, BinaryP<T, f_p_hypot>, BinaryP<T, f_p_pow>, BinaryP<T, f_p_beta>>(r);
+}
+
+// round 2 jobs (plain functions instantiate their tables wherever they are compiled: one guard per part)
+#if MC_PART == 1
+void entry_points_float(mc::Reporter& r)
+{
+    run_all<Unary<float, f_floorf>, Unary<float, f_ceilf>, Unary<float, f_truncf>, Unary<float, f_roundf>, Unary<float, f_rintf>,
+        Unary<float, f_lrintf>, Unary<float, f_llrintf>>(r);
+}
+#elif MC_PART == 3
+void entry_points_long_double(mc::Reporter& r)
+{
+    run_all<Unary<long double, f_floorl>, Unary<long double, f_ceill>, Unary<long double, f_truncl>, Unary<long double, f_roundl>,
+        Unary<long double, f_rintl>, Unary<long double, f_lrintl>, Unary<long double, f_llrintl>>(r);
+}
+#elif MC_PART == 2
+template <typename I>
+void integral_overloads_of(mc::Reporter& r)
+{
+    run_all<IntUnary<I, f_floor>, IntUnary<I, f_ceil>, IntUnary<I, f_trunc>, IntUnary<I, f_round>, IntUnary<I, f_rint>, IntUnary<I, f_lrint_i>,
+        IntUnary<I, f_llrint_i>, IntUnary<I, f_isnan>, IntUnary<I, f_isinf>>(r);
+}
+void integral_overloads(mc::Reporter& r)
+{
+    integral_overloads_of<signed char>(r);
+    integral_overloads_of<unsigned char>(r);
+    integral_overloads_of<short>(r);
+    integral_overloads_of<int>(r);
+    integral_overloads_of<unsigned>(r);
+    integral_overloads_of<long>(r);
+    integral_overloads_of<unsigned long long>(r);
+}
+#elif MC_PART == 7
+void entry_points_binary_float(mc::Reporter& r)
+{
+    run_all<Binary<float, f_copysignf>, Binary<float, f_fminf>, Binary<float, f_fmaxf>, Binary<float, f_fdimf>, Binary<float, f_fmodf>,
+        Binary<float, f_remainderf>, Binary<float, f_nextafterf>>(r);
+}
+void entry_points_fmaf(mc::Reporter& r) { run_all<Ternary<float, f_fmaf>>(r); }
+#elif MC_PART == 8
+void entry_points_binary_long_double(mc::Reporter& r)
+{
+    run_all<Binary<long double, f_copysignl>, Binary<long double, f_fminl>, Binary<long double, f_fmaxl>, Binary<long double, f_fdiml>,
+        Binary<long double, f_fmodl>, Binary<long double, f_remainderl>>(r);
+}
+void entry_points_fmal(mc::Reporter& r) { run_all<Ternary<long double, f_fmal>>(r); }
+#endif
+
+#if MC_PART == 1 || MC_PART == 4 || MC_PART == 7
 using FT = float;
 #elif MC_PART == 2 || MC_PART == 5
 using FT = double;
@@ -378,6 +673,26 @@ int main(int argc, char** argv)
     m.job("cmath-exact-classify-" + t, {"quick", "thorough"}, exact_unary2<FT>);
     m.job("cmath-exact-binary-" + t, {"quick", "thorough"}, exact_binary<FT>);
     m.job("cmath-exact-fma-" + t, {"quick", "thorough"}, exact_fma<FT>);
+    #if MC_PART == 1
+    m.job("cmath-exact-entrypoints-float", {"quick", "thorough"}, entry_points_float);
+    #elif MC_PART == 2
+    m.job("cmath-exact-integral-overloads", {"quick", "thorough"}, integral_overloads);
+    #else
+    m.job("cmath-exact-entrypoints-long_double", {"quick", "thorough"}, entry_points_long_double);
+    #endif
+#elif MC_PART == 7
+    m.job("cmath-exact-entrypoints-binary-float", {"thorough"}, entry_points_binary_float);
+    m.job("cmath-exact-entrypoints-fmaf", {"thorough"}, entry_points_fmaf);
+#elif MC_PART == 8
+    m.job("cmath-exact-entrypoints-binary-long_double", {"thorough"}, entry_points_binary_long_double);
+    m.job("cmath-exact-entrypoints-fmal", {"thorough"}, entry_points_fmal);
+#elif MC_PART == 9
+    m.job("cmath-probe-unary-float", {"quick", "thorough"}, boundary_probes_unary<float>);
+    m.job("cmath-probe-unary-double", {"quick", "thorough"}, boundary_probes_unary<double>);
+    m.job("cmath-probe-unary-long_double", {"quick", "thorough"}, boundary_probes_unary<long double>);
+    m.job("cmath-probe-binary-float", {"quick", "thorough"}, boundary_probes_binary<float>);
+    m.job("cmath-probe-binary-double", {"quick", "thorough"}, boundary_probes_binary<double>);
+    m.job("cmath-probe-binary-long_double", {"quick", "thorough"}, boundary_probes_binary<long double>);
 #else
     m.job("cmath-cxok-trig-" + t, {"quick", "thorough"}, approx_a<FT>);
     m.job("cmath-cxok-hyp-" + t, {"quick", "thorough"}, approx_b<FT>);
